@@ -218,6 +218,19 @@ func (f *Frame) enterLoop(li *loopInfo, b *ssa.BasicBlock) {
 			f.havocMaps(&f.cur.mem, limit)
 			f.cur.mem.m[mapLenKey] = u.mc.HavocObjs(f.cur.mem.m[mapLenKey], limit, u.mc.NewBase("lpml", BV64, nil))
 		}
+		if all {
+			// private locals keep their content across a havoc of everything (nobody else can
+			// reach them) - except those the loop body itself may write
+			for _, a := range writtenLocals(f.fn, li) {
+				av, ok := f.vals[a]
+				if !ok {
+					continue
+				}
+				et := a.Type().Underlying().(*types.Pointer).Elem()
+				regs := []region{{obj: av[0], lo: av[1], hi: tb.Add(av[1], tb.BV(64, u.W.layout.Size(et))), sorts: u.W.layout.ElemSorts(et), cond: tb.True()}}
+				f.cur.mem = f.havocRegions(f.cur.mem, regs, false)
+			}
+		}
 		if !all {
 			// function-level locals assigned in the loop
 			for _, lrg := range f.loopLocalWrites {
@@ -470,6 +483,111 @@ func paramRootedWrites(w *World, fn *ssa.Function, depth int) ([]int, bool) {
 	return out, true
 }
 
+// derivedAddrs: the SSA values that are addresses into the local variable a (a itself, field and
+// element addresses, phis of those), and whether one of them is used in a way that lets the
+// address escape (stored, passed to a call, converted, sliced, compared ...).
+func derivedAddrs(a *ssa.Alloc) (set map[ssa.Value]bool, escapes bool) {
+	set = map[ssa.Value]bool{a: true}
+	work := []ssa.Value{a}
+	for len(work) > 0 {
+		v := work[len(work)-1]
+		work = work[:len(work)-1]
+		refs := v.Referrers()
+		if refs == nil {
+			continue
+		}
+		for _, r := range *refs {
+			switch x := r.(type) {
+			case *ssa.DebugRef:
+			case *ssa.FieldAddr:
+				if x.X == v && !set[x] {
+					set[x] = true
+					work = append(work, x)
+				}
+			case *ssa.IndexAddr:
+				if x.X == v {
+					if !set[x] {
+						set[x] = true
+						work = append(work, x)
+					}
+				} else {
+					escapes = true
+				}
+			case *ssa.Phi:
+				if !set[x] {
+					set[x] = true
+					work = append(work, x)
+				}
+			case *ssa.UnOp:
+				if x.Op != token.MUL {
+					escapes = true
+				}
+			case *ssa.Store:
+				if x.Val == v {
+					escapes = true
+				}
+			case *ssa.BinOp:
+				// comparison of addresses (p == nil): harmless
+				if x.Op != token.EQL && x.Op != token.NEQ {
+					escapes = true
+				}
+			case *ssa.If:
+			default:
+				escapes = true
+			}
+		}
+	}
+	return
+}
+
+// privateAlloc: no address into the local variable ever leaves the function's own loads and
+// stores, so no callee and no other object can reach it.
+func (w *World) privateAlloc(a *ssa.Alloc) bool {
+	if !a.Heap {
+		return true
+	}
+	if v, ok := w.privAlloc[a]; ok {
+		return v
+	}
+	_, esc := derivedAddrs(a)
+	if w.privAlloc == nil {
+		w.privAlloc = map[*ssa.Alloc]bool{}
+	}
+	w.privAlloc[a] = !esc
+	return !esc
+}
+
+// writtenLocals: function-level local variables (allocated outside the loop) that the loop
+// body may write through an address derived from them.
+func writtenLocals(fn *ssa.Function, li *loopInfo) []*ssa.Alloc {
+	var out []*ssa.Alloc
+	for _, b := range fn.Blocks {
+		for _, in := range b.Instrs {
+			a, ok := in.(*ssa.Alloc)
+			if !ok || li.body[a.Block()] {
+				continue
+			}
+			set, _ := derivedAddrs(a)
+			written := false
+			for v := range set {
+				refs := v.Referrers()
+				if refs == nil {
+					continue
+				}
+				for _, r := range *refs {
+					if st, ok := r.(*ssa.Store); ok && st.Addr == v && li.body[st.Block()] {
+						written = true
+					}
+				}
+			}
+			if written {
+				out = append(out, a)
+			}
+		}
+	}
+	return out
+}
+
 // rootAlloc: the local variable an address expression points into, if it is one syntactically
 func rootAlloc(v ssa.Value) *ssa.Alloc {
 	for i := 0; i < 16; i++ {
@@ -560,8 +678,8 @@ func (f *Frame) loopWrites(li *loopInfo) (sorts []Sort, all bool, maps bool) {
 									hasAssigns = true
 								}
 							}
-							if hasAssigns {
-								all = true
+							if hasAssigns || con.Flags["noframe"] {
+								all = true // (a noframe contract without an assigns clause may write anything)
 							}
 							continue
 						}
